@@ -42,6 +42,9 @@ def check_C03(ctx):
     q = ctx.tier == 'quick'
     r = ctx.tlc_model('MpzAors', cfg_text=cfg(consts={'B': 3, 'V': 6 if q else 10, 'Variant': '"ok"'}), name='MpzAors')
     ctx.model_must_hold(r, what='(mpz_add/mpz_sub over the block store, all alias patterns)')
+    b = ctx.build('default')
+    funs = 'mpz_add:mpz_sub:mpz_add_ui:mpz_sub_ui:mpz_ui_sub:mpz_neg:mpz_abs:mpz_mul_2exp:mpz_set:mpz_swap'
+    ctx.validate(ctx.run_driver(b, 'alias', shards=8, extra='funs=' + funs, tier='thorough', timeout=600))     # every alias partition x exact/generous allocation
     trace_drivers(ctx, [('c03_mpn', 16, 600), ('c03_mpz', 8, 600)], pure_drivers=['c03_mpn', 'c03_mpz'])
     return ctx.finish('model_checking',
         rule='R2: MpzAors enumerates every (alias triple, value triple in -V..V at limb base 3, spare allocation) exhaustively; '
@@ -174,3 +177,59 @@ def check_C02(ctx):
              'divisibility and congruence function x four sign combinations x exact/maximal-remainder/random, d=0 where defined; each call validated by TLC. '
              'distinct = distinct (function, operands, results); non-trivial = at least two limbs',
         explanation='exhaustive small-word models of the quotient-digit machinery + trace validation of the real division code')
+
+
+# ------------------------------------------------------------------------------------------------ C10
+def check_C10(ctx):
+    q = ctx.tier == 'quick'
+    r = ctx.tlc_model('MpzLogic', cfg_text=cfg(consts={'B': 4, 'V': 6 if q else 17, 'Variant': '"ok"'}), name='MpzLogic', timeout=3000)
+    ctx.model_must_hold(r, what='(mpz_and over the block store: sign paths, realloc, temporaries, aliasing)')
+    trace_drivers(ctx, [('c10_mpz', 16, 900), ('c10_mpn', 8, 600)], pure_drivers=['c10_mpz', 'c10_mpn'])
+    return ctx.finish('model_checking',
+        rule='R2: MpzLogic enumerates every identity triple (res,op1,op2), every value triple in -V..V at limb base 4 and exact/spare allocations through the transcribed '
+             'mpz_and. R3/R1: and/ior/xor/com/setbit/clrbit/combit/tstbit/scan0/scan1/popcount/hamdist for all sign combinations x operand shapes (random kinds, +-1, +-2^k, low zero '
+             'limbs, all ones) x length pairs x bit indices below/at/above the length x aliasing, and the mpn logical kernels for every n (all residues mod 8), validated against the '
+             'infinite two\'s-complement definitions of BigZ. distinct = distinct (function, operands, results); non-trivial = at least two limbs',
+        explanation='exhaustive small-base model of the sign-case analysis + trace validation against two\'s-complement semantics')
+
+
+# ------------------------------------------------------------------------------------------------ C04 / C05
+def check_C05(ctx):
+    q = ctx.tier == 'quick'
+    r = ctx.tlc_model('MpzAors', cfg_text=cfg(consts={'B': 3, 'V': 5 if q else 8, 'Variant': '"ok"'}), name='MpzAors')
+    ctx.model_must_hold(r, what='(store order / pointer re-reads of mpz_add, mpz_sub under every alias pattern)')
+    r = ctx.tlc_model('MpzLogic', cfg_text=cfg(consts={'B': 4, 'V': 5 if q else 9, 'Variant': '"ok"'}), name='MpzLogic')
+    ctx.model_must_hold(r, what='(mpz_and under every alias pattern)')
+    b = ctx.build('default')
+    paths = ctx.run_driver(b, 'alias', shards=16, timeout=1200)
+    ctx.validate(paths)
+    pp = ctx.run_driver(b, 'alias', shards=1, extra='pure,funs=mpz_add:mpz_sub:mpz_mul:mpz_tdiv_qr:mpz_and:mpz_ior:mpz_gcd:mpz_addmul:mpz_neg:mpz_mul_2exp:mpz_fdiv_q:mpz_cdiv_r', timeout=300)
+    ctx.validate(pp, pure=True)
+    return ctx.finish('model_checking',
+        rule='R2: MpzAors and MpzLogic enumerate all 27 identity triples x values x allocations over a block store (pointer re-reads, store order). R3/R1: for every mpz function '
+             'of the API table every set partition of its mpz arguments into identity classes (minus two results in one variable, which the manual excludes) x 3 operand size '
+             'classes x {exact, generous} allocation is executed; MPIR.tla computes the expected result from its OWN pre-state (i.e. as if the operands were distinct) and '
+             'requires every non-output operand to keep its value. distinct = distinct (function, partition, operands); non-trivial = at least two limbs',
+        explanation='alias-partition enumeration from the API table, validated against the abstract machine; memory-and-aliasing models')
+
+
+def check_C04(ctx):
+    q = ctx.tier == 'quick'
+    r = ctx.tlc_model('MpzAors', cfg_text=cfg(consts={'B': 3, 'V': 5 if q else 8, 'Variant': '"ok"'}), name='MpzAors')
+    ctx.model_must_hold(r, what='(block store discipline of mpz_add/mpz_sub)')
+    r = ctx.tlc_model('MpzLogic', cfg_text=cfg(consts={'B': 4, 'V': 5 if q else 9, 'Variant': '"ok"'}), name='MpzLogic')
+    ctx.model_must_hold(r, what='(block store discipline of mpz_and incl. temporaries)')
+    b = ctx.build('default')
+    paths = ctx.run_driver(b, 'hist', shards=16, timeout=1200)
+    paths += ctx.run_driver(b, 'alias', shards=16, timeout=1200)
+    ctx.validate(paths)
+    pp = ctx.run_driver(b, 'hist', shards=1, extra='pure,funs=mpz_add:mpz_sub:mpz_mul:mpz_tdiv_qr:mpz_and:mpz_ior:mpz_gcd:mpz_addmul:mpz_neg:mpz_mul_2exp:mpz_fdiv_q:mpz_swap:mpz_set', timeout=300)
+    ctx.validate(pp, pure=True)
+    return ctx.finish('model_checking',
+        rule='R2: block-store models (MpzAors, MpzLogic): every access through a live block of sufficient size, frees with the allocated size, no orphan. R3/R1: seeded random '
+             'histories of public calls over a pool of variables with mpz_realloc2 (shrink to the minimum / grow), clear+init, swap between calls and the alias sweep; the recording '
+             'allocator installed with mp_set_memory_functions logs every alloc/realloc/free with the size the library passed, and MPIR.tla accepts a free/realloc only with the exact '
+             'current size, requires every touched object to be well formed and to own a block of exactly its allocation, no temporary to survive a call, nothing live after all '
+             'clears, canaries intact, and every value equal to the result computed from the abstract value (so allocation history cannot matter). '
+             'distinct = distinct calls; non-trivial = at least two limbs',
+        explanation='allocator contract as enabledness of the abstract machine; histories replayed on the real library')
